@@ -1288,6 +1288,11 @@ func genC19(g *Gen, n int) {
 	for _, o := range c19AfterBoundary() {
 		g.Emit(o.line(), true, "boundary", "after:"+o.k1+"->"+o.k2)
 	}
+	// the random stream keeps at least n/3 ops of its own, however large the fixed lists above grow (today
+	// they are 128 of the quick tier's 3000 ops, so this changes nothing)
+	if n < g.st.Ops+n/3 {
+		n = g.st.Ops + n/3
+	}
 	for g.st.Ops < n {
 		switch g.Intn(22) {
 		case 20, 21: // a call that fails while reading a file, then another call (r5-C19-a)
